@@ -71,14 +71,14 @@ theorem preNB_of_wf {h : Hashing} {i : SyncIn} (hw : wfWorld h i = true) (hx : e
   obtain ⟨⟨⟨⟨⟨⟨⟨⟨⟨⟨s1, s2⟩, s3⟩, _⟩, _⟩, _⟩, s7⟩, s8⟩, s9⟩, _⟩, s11⟩ := hspec
   unfold extraB at hx
   simp only [Bool.and_eq_true, List.all_eq_true, decide_eq_true_eq] at hx
-  obtain ⟨⟨⟨⟨⟨⟨⟨⟨⟨⟨x1, x2⟩, x3⟩, x4⟩, x5⟩, x6⟩, x7⟩, x8⟩, x9⟩, x10⟩, x11⟩ := hx
+  obtain ⟨⟨⟨⟨⟨⟨⟨⟨⟨x1, x2⟩, x3⟩, x4⟩, x5⟩, x7⟩, x8⟩, x9⟩, x10⟩, x11⟩ := hx
   have hpod : ∀ c ∈ i.pods, c.name = canonicalName i.setName c.pod.ord ∧ 0 ≤ c.pod.ord ∧ c.selMatch = true ∧
       c.owner ≠ .other ∧ c.pod.created = true ∧
       (i.view.parallel = true ∨ ((c.pod.failed || c.pod.succeeded) = true →
         (desired (replicasOf i.view) i.view.slots).contains c.pod.ord = true)) := by
     intro c hc
     have hwf := hpods c hc
-    have hm := (x2 c hc).1.1
+    have hm := (x2 c hc).1
     unfold wfPod at hwf
     rw [if_pos hm] at hwf
     simp only [Bool.and_eq_true, beq_iff_eq, decide_eq_true_eq, bne_iff_ne, ne_eq, Bool.or_eq_true, Bool.not_eq_true',
@@ -90,15 +90,13 @@ theorem preNB_of_wf {h : Hashing} {i : SyncIn} (hw : wfWorld h i = true) (hx : e
     · exact Or.inr (fun hfs => w6 (by simpa using hfs))
   unfold preNB preCB
   simp only [Bool.and_eq_true, Bool.or_eq_true, List.all_eq_true, decide_eq_true_eq, beq_iff_eq, bne_iff_ne, ne_eq]
-  refine ⟨⟨⟨⟨⟨⟨⟨⟨⟨⟨⟨⟨⟨?_, ?_⟩, ?_⟩, x3⟩, x4⟩, x5⟩, x6⟩, x7⟩, x8⟩, x9⟩, x10⟩, ?_⟩, x11⟩, ?_⟩
+  refine ⟨⟨⟨⟨⟨⟨⟨⟨⟨⟨⟨?_, ?_⟩, x3⟩, x4⟩, x5⟩, x7⟩, x8⟩, x9⟩, x10⟩, ?_⟩, x11⟩, ?_⟩
   · unfold specOk
     simp only [Bool.and_eq_true, Bool.not_eq_true', Bool.or_eq_true, beq_iff_eq, decide_eq_true_eq]
     exact ⟨⟨⟨⟨⟨⟨s1, s2⟩, s3⟩, x1⟩, s7⟩, s8⟩, s11⟩
   · intro c hc
     obtain ⟨p1, p2, p3, p4, p5, _⟩ := hpod c hc
-    exact ⟨⟨⟨⟨⟨⟨p4, (x2 c hc).1.1⟩, p3⟩, p1⟩, p2⟩, (x2 c hc).1.2⟩, p5⟩
-  · intro c hc
-    exact (x2 c hc).2
+    exact ⟨⟨⟨⟨⟨⟨p4, (x2 c hc).1⟩, p3⟩, p1⟩, p2⟩, (x2 c hc).2⟩, p5⟩
   · unfold partB legacyB
     rcases s8 with hr | ho
     · cases hru : i.view.ru with
